@@ -20,6 +20,7 @@ THEOREMS = [
     "c04_echo_iff",
     "c04_nonstring_gets_latest",
     "c04_session_records_answer",
+    "c04_session_records_answer_seq",
     "c04_default_supported",
     "c04_library_answer_supported",
     "c04_handshake_sound",
@@ -30,7 +31,8 @@ THEOREMS = [
 RULE = (
     "server: requested protocolVersion in {each supported version, every calendar date 1925-01-01..2124-12-31, seeded dddd-dd-dd strings "
     "(3 k quick / 500 k thorough), mutations of the supported versions, malformed strings, non-strings of "
-    "every JSON type, absent in 4 shapes} through the real handle_message, compared with serverAnswer on the regenerated constants; "
+    "every JSON type, absent in 4 shapes}, and sequences of 2-3 initialize requests on one handler with and without a carried "
+    "(live or stale) session id, through the real handle_message, compared with serverAnswer on the regenerated constants; "
     "handshake: the real send_initialize against the real handler over an in-memory pipe (messages cross as JSON text) for every client "
     "list of length<=3 over 3 real + 3 invented versions x 9 preferred, compared with the composed model; "
     "non-trivial = distinct requested value / distinct (client list, preferred)"
@@ -102,27 +104,68 @@ class Server(Suite):
         out += [{"req": {"k": "str", "s": s}} for s in V.INVENTED + [V.OUTSIDE] + MALFORMED_STRINGS + [""]]
         rng = ctx.sub_rng("c04-server", budget)
         out += [{"req": {"k": "str", "s": s}} for s in mutations(rng, sup, 300 if budget == "quick" else 5000)]
+        out += self.sequences(sup)
         out += [{"req": {"k": "str", "s": d.isoformat()}} for d in all_dates()]
         ctx.exhaustive_parts.append("server-answer: every calendar date 1925-01-01..2124-12-31")
+        ctx.exhaustive_parts.append(
+            "server-answer: every sequence of 2 initialize requests over {each supported version, an unsupported date, a non-string, "
+            "absent} x carried session id {none, the previous one, a stale one}, and every sequence of 3 x 5 carry patterns, on one handler")
         n = {"quick": 3000, "search": 50000}.get(budget, 500000)
         for _ in range(n):  # dddd-dd-dd strings that need not be calendar dates
             out.append({"req": {"k": "str", "s": "%04d-%02d-%02d" % (rng.randrange(10000), rng.randrange(100), rng.randrange(100))}})
         return out
 
+    @staticmethod
+    def sequences(sup):
+        """2-3 initialize requests on one handler; cheapest witnesses (two supported versions, session carried) first"""
+        reqs = [{"k": "str", "s": s} for s in reversed(sup)] + [{"k": "str", "s": "1999-12-31"}, {"k": "json", "v": 0},
+                                                                  {"k": "absent", "shape": "no-member"}]
+        out = []
+        for carry in ("prev", None, "bogus"):
+            for a in reqs:
+                for b in reqs:
+                    out.append({"steps": [{"req": a, "carry": None}, {"req": b, "carry": carry}]})
+        for pattern in (("prev", "prev"), ("first", "first"), (None, "prev"), ("prev", None), ("bogus", "prev")):
+            for a in reqs:
+                for b in reqs:
+                    for c in reqs:
+                        out.append({"steps": [{"req": a, "carry": None}, {"req": b, "carry": pattern[0]},
+                                              {"req": c, "carry": pattern[1]}]})
+        return out
+
     def impl_batch(self, cases):
-        return V.run_server(cases)
+        single = [c for c in cases if "steps" not in c]
+        seqs = [c for c in cases if "steps" in c]
+        so = iter(V.run_server(single) if single else [])
+        qo = iter(V.run_server_seq(seqs) if seqs else [])
+        return [next(qo) if "steps" in c else next(so) for c in cases]
+
+    @staticmethod
+    def model_req(r):
+        if r["k"] == "str":
+            return {"k": "str", "s": r["s"]}
+        if r["k"] == "json":
+            return {"k": "other"}
+        return {"k": "absent"}
 
     def model_line(self, case):
-        r = case["req"]
-        if r["k"] == "str":
-            req = {"k": "str", "s": r["s"]}
-        elif r["k"] == "json":
-            req = {"k": "other"}
-        else:
-            req = {"k": "absent"}
-        return {"m": "version", "op": "server", "req": req}
+        if "steps" in case:
+            # the carried id as a store position (the model ignores it, as the code does)
+            pos = {"prev": lambda i: i - 1, "first": lambda i: 0, "bogus": lambda i: 999}
+            return {"m": "version", "op": "serverseq",
+                    "steps": [{"req": self.model_req(st["req"]), "carry": pos[st["carry"]](i) if st.get("carry") else None}
+                              for i, st in enumerate(case["steps"])]}
+        return {"m": "version", "op": "server", "req": self.model_req(case["req"])}
 
     def compare(self, case, o, m):
+        if "steps" in case:
+            if len(o["steps"]) != len(m["steps"]):
+                return "step count differs"
+            for so, sm in zip(o["steps"], m["steps"]):
+                d = self.compare({"req": None}, so, sm)
+                if d:
+                    return d
+            return None
         if o.get("kind") != "result" or not o.get("has_session"):
             return "no result / no session"
         if o.get("answered") != m["answered"] or type(o.get("answered")) is not str:
@@ -132,6 +175,19 @@ class Server(Suite):
         return None
 
     def oracle(self, case, o):
+        if "steps" in case:
+            for i, (st, so) in enumerate(zip(case["steps"], o["steps"])):
+                v = self.oracle({"req": st["req"]}, so)
+                if v is not None:
+                    key, what, exp = v
+                    if i > 0:
+                        carried = {None: "no session id", "prev": "the session id of the previous initialize",
+                                   "first": "the session id of the first initialize", "bogus": "a stale session id"}[so.get("carried")]
+                        key += "-on-reinitialize"
+                        what = (f"initialize no. {i + 1} on one handler (earlier requests: "
+                                f"{', '.join(describe(s['req']) for s in case['steps'][:i])}; carrying {carried}): " + what)
+                    return (key, what, exp)
+            return None
         sup = V.server_supported()
         r = case["req"]
         what_req = describe(r)
@@ -159,6 +215,9 @@ class Server(Suite):
         return None
 
     def kind(self, case, o):
+        if "steps" in case:
+            reuse = "reused" if any(s.get("reused_carried") for s in o["steps"]) else "fresh"
+            return "sequence/%d/%s/%s" % (len(case["steps"]), "+".join(str(s.get("carry")) for s in case["steps"][1:]), reuse)
         r = case["req"]
         if r["k"] == "absent":
             return "absent/" + r.get("shape", "")
@@ -180,6 +239,13 @@ class Server(Suite):
     def shrink_candidates(self, case):
         # requested strings are not shrunk: the generated ones are short and a date-shaped witness says
         # more than a one-character one; the case list is ordered so that the first witness is simple
+        if "steps" in case:
+            steps = case["steps"]
+            if len(steps) > 2:
+                for i in range(len(steps)):
+                    rest = steps[:i] + steps[i + 1:]
+                    yield {"steps": [dict(rest[0], carry=None)] + rest[1:]}
+            return
         r = case["req"]
         if r["k"] == "json" and canon(r["v"]) != "0":
             yield {"req": {"k": "json", "v": 0}}
